@@ -18,7 +18,7 @@ CLAIMED = {
              "Visitor._get_docstring (every leading string literal, the empty one included, with its own span) and the docstring of each name bound by an assignment. "
              "Whole-module agreement with the source (one member per bound name, docstrings and spans) is a bounded native catalogue of generated modules.",
         note="Restricted claim: only the clauses listed in evidence.coverage.contracts are decided; the whole-module statement is a paper induction over the "
-             "per-handler contracts plus the bounded tier. ast node invariants assumed (lineno <= end_lineno, targets non-empty). Fixed: C01-D1/D2/D3.",
+             "per-handler contracts plus the bounded tier. ast node invariants assumed (lineno <= end_lineno, targets non-empty). Fixed: C01-D1..D7 (visit_if flag, docstring leak across targets, is_exported without parent, empty __all__, property span, mixed unsupported targets).",
         ref="DESIGN.md 3/C01"),
     "C02": dict(
         text="Proof for all lengths: the real get_parameters body (any rewrite of it in the supported subset) is proved equal to the CPython "
@@ -97,7 +97,8 @@ CLAIMED.update({
              "exception (alias errors suppressed); for an arbitrary stub parameter: annotation overwritten for the same-named runtime parameter, returns from the stub; "
              "docstring kept unless missing; attribute annotation; overload lists moved when non-empty; no iteration can abort its loop. "
              "Order independence and the three placements are a bounded native tier.",
-        note="One Skolem element per loop (generic-iteration mode) plus the proved fact that no iteration raises; set_member/get_member by contract (C16).",
+        note="One Skolem element per loop (generic-iteration mode) plus the proved fact that no iteration raises; set_member/get_member by contract (C16). The runtime member may be an alias (assigning its overloads resolves it). "
+             "Fixed: C19-P1 (alias errors escaping the overload merge), C19-P2 (overloads of a stub function with implementation signature).",
         ref="DESIGN.md 3/C19"),
 })
 
@@ -194,7 +195,7 @@ CLAIMED.update({
              "The plain-text clause and section well-formedness are a bounded native corpus.",
         note="The parent is None or a model object of unknown class whose reads may raise per the listed policy; regex outcomes are abstract except group optionality "
              "(derived from the real patterns); compile() may raise SyntaxError / ValueError; RecursionError / MemoryError not modelled. "
-             "Fixed: C12-F0..F5 (no known finding left).",
+             "Fixed: C12-F0..F6 (no known finding left); 'the safe expression getter never raises' is no longer assumed (C03 safe_get_expression.total).",
         ref="DESIGN.md 3/C12"),
 })
 
@@ -208,7 +209,8 @@ CLAIMED.update({
              "_build_constant's decision, and a call-site lemma (only annotation helpers use auto mode). That the templates parse back to the source tree "
              "is validated against ast.parse on a catalogue of expressions (bounded native tier).",
         note="Children are abstracted to (class, operator, uninterpreted rendering); arbitrary nesting follows by structural induction (paper). Quick tier: one child at a "
-             "time is arbitrary, thorough: every pair at once; child sequences have 0..2 elements. Fixed: C03-P1..P11 (parenthesization and 10 rendering defects, incl. lambda markers and f-string fields starting with a brace); "
+             "time is arbitrary, thorough: every pair at once; child sequences have 0..2 elements. Fixed: C03-P1..P11 (parenthesization and 10 rendering defects, incl. lambda markers and f-string fields starting with a brace); safe_get_expression is "
+             "proved total (it is what every caller assumes); "
              "known: C03-F1 (f-string conversion / format spec not stored).",
         ref="DESIGN.md 3/C03"),
 })
@@ -223,7 +225,7 @@ CLAIMED.update({
              "emptied, admonition title cleared); documented section titles map to their kinds and kinds to their readers. "
              "Equality of the recovered fields with the written ones is a bounded native round trip (renderer in /verif).",
         note="Restricted claim: field-level recovery (regular expressions) is bounded only; Sphinx is covered by the native tier and C12's contracts. "
-             "Fixed: C13-P1 (Google attribute type leak), C13-P2 (Numpy trailing newline); known: C13-F1 (Sphinx :type: after :param: ignored).",
+             "Fixed: C13-P1 (Google attribute type leak), C13-P2 (Numpy trailing newline); C13-P3 (single Numpy Yields / Receives item), C13-F1 (Sphinx :type: after :param:, first a known finding); no known finding left.",
         ref="DESIGN.md 3/C13"),
 })
 
